@@ -313,6 +313,10 @@ fn level1_one(ctx: &mut Ctx, w: &mut World, world_rng: &mut Rng, family: &str, i
     }
     for (who, r) in replies {
         ctx.count("replies_produced");
+        ctx.max("largest_reply_bytes", r.len() as f64);
+        if r.len() > 16384 {
+            ctx.count("replies_beyond_16_KiB");
+        }
         if monitor::guard(|| Packet::parse(&r).is_ok()).unwrap_or(false) {
             ctx.count("replies_reparsed_ok");
         } else {
@@ -389,6 +393,45 @@ fn level1(ctx: &mut Ctx) {
                 let v = datagram(ctx, "valid", idx);
                 level1_one(ctx, &mut w, &mut world_rng, "valid", idx, &v);
             }
+        }
+    }
+    // ---- a store large enough for replies beyond 16 KiB (the reach of a compression pointer): ~100 instances of one service,
+    // each owning a TXT, an SRV and an address record, asked for through the service name and through instance names
+    {
+        let nb = if slow { 2 } else { tier.pick(48u64, 2_000u64) };
+        let mut big: Option<World> = None;
+        for idx in 0..nb {
+            if !ctx.take("big-store", idx) {
+                continue;
+            }
+            let bw = big.get_or_insert_with(|| {
+                let mut wr = Rng::for_case(ctx.seed, "c14-big-world", 0);
+                let bw = new_world(&mut wr);
+                {
+                    let mut st = bw.store.write().unwrap();
+                    let svc = Name::new("_big._tcp.local").unwrap().into_owned();
+                    for k in 0..100u32 {
+                        let inst = Name::new(&format!("instance-number-{}._big._tcp.local", k)).unwrap().into_owned();
+                        st.add_authoritative_resource(ResourceRecord::new(svc.clone(), CLASS::IN, 120, RData::PTR(inst.clone().into())));
+                        let text = format!("{:03}={}", k, "t".repeat(150 + (k as usize * 7) % 90));
+                        let txt = simple_dns::rdata::TXT::new().with_string(&text).unwrap().into_owned();
+                        st.add_authoritative_resource(ResourceRecord::new(inst.clone(), CLASS::IN, 120, RData::TXT(txt)));
+                        st.add_authoritative_resource(ResourceRecord::new(inst.clone(), CLASS::IN, 120, RData::SRV(simple_dns::rdata::SRV { port: 8000 + k as u16, priority: 0, weight: 0, target: inst.clone() })));
+                        st.add_authoritative_resource(ResourceRecord::new(inst.clone(), CLASS::IN, 120, RData::A(A { address: 0x0A00_0000 + k })));
+                    }
+                }
+                bw
+            });
+            let mut r = ctx.rng("big-store", idx);
+            let mut q = Packet::new_query(idx as u16);
+            for _ in 0..r.usize(1, 3) {
+                let name = if r.chance(2, 3) { "_big._tcp.local".to_string() } else { format!("instance-number-{}._big._tcp.local", r.below(100)) };
+                let qt: simple_dns::QTYPE = match r.below(5) { 0 => TYPE::TXT.into(), 1 => TYPE::SRV.into(), 2 => TYPE::PTR.into(), _ => simple_dns::QTYPE::ANY };
+                let qc: simple_dns::QCLASS = if r.bool() { CLASS::IN.into() } else { simple_dns::QCLASS::ANY };
+                q.questions.push(Question::new(Name::new(&name).unwrap().into_owned(), qt, qc, r.bool()));
+            }
+            let d = q.build_bytes_vec_compressed().unwrap();
+            level1_one(ctx, bw, &mut world_rng, "big-store", idx, &d);
         }
     }
     stop.store(true, Ordering::Relaxed);
